@@ -293,6 +293,11 @@ Definition form_args (S : schema) (vars : list (nat * value)) (fid : nat) (fd : 
   (m, ea ++ map (fun d => mkErr [] (LNode fid) EMissingArg) missing).
 
 (* field.sortArgs: when the container is an *Object or an *Interface that has the field *)
+(* __typename is defined on no type and declares no arguments: every argument written on it is
+   undeclared (field.go sortArgs, the branch without a field definition) *)
+Definition meta_arg_errs (name : nat) (args : list arg) : list err :=
+  if Nat.eqb name TYPENAME then map (fun av => mkErr [] LOther EBadArg) args else [].
+
 Definition sort_args (S : schema) (t : nat) (name : nat) (args : list arg) : list (option arg) * list err :=
   match args with
   | [] => ([], [])
@@ -306,9 +311,9 @@ Definition sort_args (S : schema) (t : nat) (name : nat) (args : list arg) : lis
                 map (fun av => mkErr [] LOther EBadArg)
                     (filter (fun av => match find_arg (fst av) (f_args fd) with None => true | Some _ => false end) args) in
               (sorted, errs)
-          | None => (map Some args, [])
+          | None => (map Some args, meta_arg_errs name args)
           end
-      | _ => (map Some args, [])
+      | _ => (map Some args, meta_arg_errs name args)
       end
   end.
 
